@@ -169,8 +169,20 @@ func (s *C14) Run(c *scen.Ctx) {
 		switch simrt.Draw(5, "c14.op") {
 		case 0:
 			var l []endpoint.Endpoint
+			// a refresh installs the descriptors it is given: the registry may list the same hosts
+			// with other weights or ports than before
+			newer := simrt.Draw(3, "c14.refreshnewer") == 2
 			for _, e := range universe {
 				if simrt.Draw(3, "c14.in") != 0 {
+					if newer && simrt.Draw(2, "c14.newerwhich") == 1 {
+						if weighted {
+							e.Weight = []int32{4, 8, 40, 100, 12}[simrt.Draw(5, "c14.newerw")]
+						} else {
+							e.Port += 11
+						}
+						e.Key = e.String()
+						c.Count("probe.refresh_with_newer_descriptor", 1)
+					}
 					l = append(l, e)
 				}
 			}
@@ -190,10 +202,8 @@ func (s *C14) Run(c *scen.Ctx) {
 				e.Qos, e.SetId, e.Grid = 3, "a.b.c", 2
 				c.Count("probe.remove_with_newer_descriptor", 1)
 			case 3:
-				if !weighted {
-					e.Weight += 13
-					c.Count("probe.remove_with_newer_descriptor", 1)
-				}
+				e.Weight += 13
+				c.Count("probe.remove_with_newer_descriptor", 1)
 			}
 			e.Key = e.String()
 			a.apply("remove", []endpoint.Endpoint{e})
@@ -212,7 +222,15 @@ func (s *C14) Run(c *scen.Ctx) {
 			b.apply("add", []endpoint.Endpoint{final[i]})
 		}
 	default:
-		b.apply("refresh", universe)
+		// everything first (members with the descriptors they have in the final set), then the non-members are removed
+		var all []endpoint.Endpoint
+		for _, e := range universe {
+			if m, ok := a.set[e.Host]; ok {
+				e = m
+			}
+			all = append(all, e)
+		}
+		b.apply("refresh", all)
 		for _, e := range universe {
 			if _, ok := a.set[e.Host]; !ok {
 				b.apply("remove", []endpoint.Endpoint{e})
